@@ -80,3 +80,37 @@ func VerifC01_BothDirections() {
 	}
 	vf.Reach("end")
 }
+
+// The other reactor implementations: listener (accept), packet connection and AsyncAdapter each
+// carry their own copy of the schedule / dispatch / de-register logic.
+func VerifC01_OtherObjects() {
+	what := wkListener + vf.Choice("object", 3)
+	cfg := c01Cfg(vf.Bound("batch", 1, 2))
+	if what == wkAdapter {
+		cfg.AllowAgain = false // a net.Conn read blocks instead of returning would-block
+	}
+	w := newWorldOf(cfg, what)
+	if vf.Bool("at-dispatch-limit") {
+		w.ioc.Dispatched = MaxCallbackDispatch
+		vf.Reach("deferred-path")
+	}
+	w.nest = 1
+	K := vf.Bound("k", 3, 4)
+	vf.Unwind(16)
+	for s := 0; s < K; s++ {
+		switch vf.Choice("action", 5) {
+		case 0:
+			w.start(0, vf.Choice("dir", 2), false)
+		case 1:
+			w.start(1, wRead, false)
+		case 2:
+			w.cancel(0)
+		case 3:
+			w.close(0)
+		case 4:
+			w.poll()
+		}
+		w.settle()
+	}
+	vf.Reach("end")
+}
